@@ -95,10 +95,12 @@ class Scope(FortranObj):
             return copy.copy(self.children)
         pub_children = []
         for child in self.children:
-            if (child.vis < 0) or ((self.def_vis < 0) and (child.vis <= 0)):
-                continue
+            # An unnamed interface block is only a container: what is accessible
+            # is decided for each procedure it declares (Interface.get_children)
             if child.name.startswith("#GEN_INT"):
                 pub_children.append(child)
+                continue
+            if (child.vis < 0) or ((self.def_vis < 0) and (child.vis <= 0)):
                 continue
             pub_children.append(child)
         return pub_children
